@@ -185,7 +185,28 @@ func run(c *vf.Ctx) {
 		c.Outcome("generate: ErrPasswordTooLong")
 	}
 	for _, cost := range []int{32, 33, 64, 100, 1 << 20} {
-		h, err := bcrypt.GenerateFromPassword([]byte("pw"), cost)
+		// A tree that lets such a cost through would start >= 2^32 key expansions. The call
+		// runs in its own goroutine; if it has not returned after 20 s it is abandoned and
+		// the run is marked non-exhaustive (no verdict is derived from the delay: the cost
+		// limit itself is decided by grid E through Cost()).
+		type res struct {
+			h   []byte
+			err error
+		}
+		ch := make(chan res, 1)
+		go func() {
+			h, err := bcrypt.GenerateFromPassword([]byte("pw"), cost)
+			ch <- res{h, err}
+		}()
+		var h []byte
+		var err error
+		select {
+		case r := <-ch:
+			h, err = r.h, r.err
+		case <-time.After(20 * time.Second):
+			c.Capped(fmt.Sprintf("GenerateFromPassword(cost=%d) did not return within 20 s; abandoned", cost))
+			continue
+		}
 		c.Eval(1)
 		var ice bcrypt.InvalidCostError
 		if h != nil || !errors.As(err, &ice) || int(ice) != cost {
@@ -218,7 +239,7 @@ func run(c *vf.Ctx) {
 			c.Violation("CompareHashAndPassword(GenerateFromPassword(pw), pw) fails", d)
 		}
 		c.Outcome("generate: ok")
-		c.Nontrivial(fmt.Sprintf("A/%d/%d/%x", len(g.pw), g.cost, lastOf(g.pw)))
+		c.Nontrivial(fmt.Sprintf("A/%d/%d/#%d", len(g.pw), g.cost, i))
 		if len(g.pw) == 72 && g.cost == 5 {
 			c.Sample(map[string]any{"grid": "A", "pwlen": 72, "cost": 5, "hash": string(g.h), "salt": hex.EncodeToString(g.salt)})
 		}
@@ -379,8 +400,14 @@ func run(c *vf.Ctx) {
 			if byte(val) == base[f.pos] {
 				continue
 			}
-			// all 256 values everywhere on the first base and in the header of the others;
-			// a 10-value alphabet on the salt/digest positions of the other bases (quick tier)
+			// quick tier: all 256 values on header+salt of the first base and on the header of
+			// the others; 72 values on the digest of the first base; 8 values elsewhere
+			if f.base == 0 && f.pos >= 29 && !c.Thorough {
+				// digest positions of the first base: all 64 alphabet characters + 8 invalid bytes
+				if strings.IndexByte(bcryptref.Alphabet, byte(val)) < 0 && !bytes.ContainsRune([]byte("\x00\xff$= \n-_"), rune(val)) {
+					continue
+				}
+			}
 			if f.base > 0 && f.pos >= 8 && !c.Thorough {
 				k := strings.IndexByte(bcryptref.Alphabet, base[f.pos])
 				next, prev := bcryptref.Alphabet[(k+1)%64], bcryptref.Alphabet[(k+63)%64]
@@ -492,12 +519,6 @@ type gen struct {
 	live bool   // printable 7-bit password: also handed to libxcrypt
 }
 
-func lastOf(b []byte) []byte {
-	if len(b) == 0 {
-		return nil
-	}
-	return b[len(b)-1:]
-}
 
 // checkMalformed applies Cost and CompareHashAndPassword to an arbitrary byte string.
 // Oracle: never panic; for strings of the strict grammar the results equal the model's;
